@@ -399,3 +399,82 @@ Section Reduce.
     rewrite kept_pidx. exact Hin.
   Qed.
 End Reduce.
+
+(* ---------------------------------------------------------------- dot (matmul path) *)
+Lemma leaves_leaf_ax (L : list (N * N * bool)) : leaves (map leaf_ax L) = map (fun x => (fst (fst x), snd (fst x), false)) L.
+Proof. unfold leaves. induction L as [|x r IH]; cbn [map flat_map pleaves leaf_ax app]; [reflexivity|]. now rewrite IH. Qed.
+
+Lemma leaves_three a b c : leaves [PFl a; PFl b; PFl c] = leaves a ++ leaves b ++ leaves c.
+Proof. unfold leaves. cbn [flat_map pleaves]. now rewrite app_nil_r. Qed.
+
+Lemma in_bounds_sub rho (d : list pex) (P : N * N * bool -> bool) :
+  in_bounds rho d -> in_bounds rho (map leaf_ax (filter P (leaves d))).
+Proof.
+  intros B x Hx. rewrite leaves_leaf_ax in Hx. apply in_map_iff in Hx as [y [<- Hy]]. apply filter_In in Hy as [Hy _].
+  cbn [fst snd]. exact (B y Hy).
+Qed.
+
+Lemma in_bounds_three rho a b c : in_bounds rho a -> in_bounds rho b -> in_bounds rho c -> in_bounds rho [PFl a; PFl b; PFl c].
+Proof.
+  intros Ba Bb Bc x Hx. rewrite leaves_three in Hx. apply in_app_or in Hx as [H|H]; [exact (Ba x H)|].
+  apply in_app_or in H as [H|H]; [exact (Bb x H)|exact (Bc x H)].
+Qed.
+
+Section Dot.
+  Variable V : Type.
+  Variable inp : nat -> entries V.
+  Variable F : String.string -> list (entries V) -> list String.string -> entries V.
+  Variable BC : list N -> list N -> entries V -> entries V.
+  Variable CC : nat -> list (list N * entries V) -> entries V.
+  Variables (d1 d2 dout : list pex).
+  Hypothesis Hok : dot_ok d1 d2 dout = true.
+
+  Let H1 : rearrange_ok d1 (dot_lhs d1 d2 dout) = true.
+  Proof. unfold dot_ok in Hok. apply andb_prop in Hok as [H _]. apply andb_prop in H as [H _]. exact H. Qed.
+  Let H2 : rearrange_ok d2 (dot_rhs d1 d2 dout) = true.
+  Proof. unfold dot_ok in Hok. apply andb_prop in Hok as [H _]. apply andb_prop in H as [_ H]. exact H. Qed.
+  Let H3 : rearrange_ok (dot_mid d1 d2 dout) dout = true.
+  Proof. unfold dot_ok in Hok. apply andb_prop in Hok as [_ H]. exact H. Qed.
+
+  Lemma dot_lhs_bounds rho : in_bounds rho d1 -> in_bounds rho (dot_lhs d1 d2 dout).
+  Proof. intros B. apply in_bounds_three; apply in_bounds_sub; exact B. Qed.
+  Lemma dot_rhs_bounds rho : in_bounds rho d1 -> in_bounds rho d2 -> in_bounds rho (dot_rhs d1 d2 dout).
+  Proof. intros B1 B2. apply in_bounds_three; apply in_bounds_sub; assumption. Qed.
+  Lemma dot_mid_bounds rho : in_bounds rho d1 -> in_bounds rho d2 -> in_bounds rho (dot_mid d1 d2 dout).
+  Proof. intros B1 B2. apply in_bounds_three; apply in_bounds_sub; assumption. Qed.
+
+  (* what the batched matmul receives and returns *)
+  Definition dot_operands : list (entries V) :=
+    [meval V inp F BC CC (lower_rearrange 0 d1 (dot_lhs d1 d2 dout)); meval V inp F BC CC (lower_rearrange 1 d2 (dot_rhs d1 d2 dout))].
+  Definition dot_product : entries V := F "matmul"%string dot_operands ["kw:"%string].
+
+  (* 1. the left operand reaches the matmul at [batch, left, contracted], the right one at [batch, contracted, right] *)
+  Theorem dot_left_operand rho v :
+    in_bounds rho d1 -> In (map (pidx rho) d1, v) (inp 0%nat) ->
+    In (map (pidx rho) (dot_lhs d1 d2 dout), v) (nth 0 dot_operands []).
+  Proof. intros B Hin. cbn [dot_operands nth]. apply (lower_rearrange_correct V inp F BC CC d1 _ H1 0%nat rho v B (dot_lhs_bounds rho B) Hin). Qed.
+
+  Theorem dot_right_operand rho v :
+    in_bounds rho d1 -> in_bounds rho d2 -> In (map (pidx rho) d2, v) (inp 1%nat) ->
+    In (map (pidx rho) (dot_rhs d1 d2 dout), v) (nth 1 dot_operands []).
+  Proof. intros B1 B2 Hin. cbn [dot_operands nth]. apply (lower_rearrange_correct V inp F BC CC d2 _ H2 1%nat rho v B2 (dot_rhs_bounds rho B1 B2) Hin). Qed.
+
+  (* 2. what the matmul returns at [batch, left, right] ends up where the output expression puts it *)
+  Lemma meval_dot :
+    meval V inp F BC CC (lower_dot d1 d2 dout) = meval V (fun _ => dot_product) F BC CC (lower_rearrange 0 (dot_mid d1 d2 dout) dout).
+  Proof. unfold lower_dot, lower_rearrange, dot_matmul. cbn [meval mshape map]. reflexivity. Qed.
+
+  Theorem lower_dot_correct rho v :
+    in_bounds rho d1 -> in_bounds rho d2 -> in_bounds rho dout ->
+    In (map (pidx rho) (dot_mid d1 d2 dout), v) dot_product ->
+    In (map (pidx rho) dout, v) (meval V inp F BC CC (lower_dot d1 d2 dout)).
+  Proof.
+    intros B1 B2 Bo Hin. rewrite meval_dot.
+    apply (lower_rearrange_correct V (fun _ => dot_product) F BC CC _ dout H3 0%nat rho v (dot_mid_bounds rho B1 B2) Bo Hin).
+  Qed.
+End Dot.
+
+(* the coordinate of a group of plain axes is the row-major number of their loop indices *)
+Lemma pidx_group rho (L : list (N * N * bool)) :
+  pidx rho (PFl (map leaf_ax L)) = ravel (map (fun x => lookup rho (fst (fst x))) L) (map (fun x => snd (fst x)) L).
+Proof. cbn [pidx]. rewrite !map_map. reflexivity. Qed.
